@@ -823,8 +823,12 @@ class _Formatter:
         # with ``\n``; rstrip-ing it is harmless.
         cleaned = [ln.rstrip(" \t") for ln in lines]
         text = "\n".join(cleaned)
-        # Collapse any trailing blank lines down to a single newline.
-        text = text.rstrip("\n") + "\n"
+        # Collapse any trailing blank lines down to a single newline -- but a
+        # final backslash-newline (or backslash-CR-LF) must stay followed by a
+        # line end, or the text would end inside a continuation and no longer
+        # tokenize.
+        body = text.rstrip("\n")
+        text = body + ("\n\n" if body.endswith(("\\", "\\\r")) else "\n")
         return text
 
 
